@@ -3,6 +3,7 @@ how it is laid out.  Documents: cassis' own to_json output on the scenarios of C
 tests/test_files/json/** lifted by harness/jsonabs.py (stdlib json).  Presentation variants come from jsonabs' dumb
 writer; every variant is loaded by load_cas_from_json and observed by scen.canon."""
 import copy
+import json
 import os
 import random
 
@@ -12,7 +13,7 @@ from harness.props import C02
 
 ID = "C05json"
 SUITE = "json"
-COQ_TARGETS = ["JsonDoc.vo", "Json.vo", "JsonProofs.vo", "JsonProofs2.vo", "JsonLoadProofs.vo", "JsonLex.vo", "CorrC02.vo", "CorrC05json.vo", "Props/C02.vo", "PropsJson.vo"]
+COQ_TARGETS = ["JsonDoc.vo", "Json.vo", "JsonProofs.vo", "JsonProofs2.vo", "JsonLoadProofs.vo", "JsonLex.vo", "CorrC02.vo", "JsonViewOmit.vo", "JsonViewOmitProofs.vo", "CorrC05json.vo", "Props/C02.vo", "PropsJson.vo"]
 CORR_IMPORTS = "Base Heap Schema Canon Reach JsonDoc Json CorrC02 CorrC05json"
 OPEN_SCOPES = ["string_scope", "list_scope", "Z_scope"]
 CASE_TYPE, CHECK_FN, PREMISES_FN = "case05", "check_case05", "premises05"
@@ -27,11 +28,17 @@ RULE = (
     "FSArray element: the reader fetches such an array ahead of its turn and must not build it a second time), shared and "
     "unshared collections, null elements, special floats, "
     "extended DocumentAnnotation; (b) all 14 JSON fixtures of tests/test_files/json (with typesystem.xml where present), "
-    "each twice.  Every document is presented in 3 variants by the harness's own writer: %FEATURE_STRUCTURES as array or as "
+    "each twice; (c) documents written by hand (HAND: what a foreign writer may produce and neither cassis' writer nor the "
+    "fixtures do -- views without members listed in %VIEWS or left out, the initial view among them, with and without text; "
+    "sofa ids / sofaNums that are not 1..n; no _InitialView sofa at all; the abbreviated spellings \"Inf\" / \"-Inf\" of the "
+    "infinite Float / Double values as '#' members and as FloatArray / DoubleArray elements, next to String values that "
+    "read the same).  Every document is presented in 3 variants by the harness's own writer: %FEATURE_STRUCTURES as array or as "
     "id-keyed object, FS order kept / reversed / shuffled / sofas last (forward references to sofas and to sofa byte "
     "arrays), %TYPES declaration order and feature declaration order kept / reversed / shuffled, member order of every "
     "object and of the document kept / reversed / shuffled, pretty or compact, ensure_ascii or not, null feature values "
-    "kept / left out / made explicit.  Load arguments: no type system (embedded declarations only) or the original one, "
+    "kept / left out / made explicit, %VIEWS entries of member-less views kept / all left out / some left out (the clause "
+    "'omission of empty views'), infinite Float / Double values spelled as in the document / abbreviated / in full / mixed "
+    "(the clause 'float literals ... under the JSON-CAS rules').  Load arguments: no type system (embedded declarations only) or the original one, "
     "merge_typesystem on / off.  A case is non-trivial when its document has >= 2 feature structures besides sofas or >= 2 sofas."
 )
 TRUSTED = [
@@ -39,12 +46,15 @@ TRUSTED = [
     "global context: C05_json_load_is_denotation (doc_ok_json d, denote_json d = Ok cc => load_json d = Ok (with_initial_view "
     "cc)), C05_json_presentation_invariant over same_content with the instances C05_json_fs_order / _dict_form / "
     "_member_order / _document_member_order / _view_order and C05_json_presentations_compose, "
-    "C05_json_load_presentation_invariant",
+    "C05_json_load_presentation_invariant; and of coq/JsonViewOmitProofs.v: C05_json_empty_views_denote / _load (restore_views "
+    "d describes and loads like d), C05_json_load_is_denotation_omitted (doc_ok_json (restore_views d) suffices), "
+    "C05_json_empty_views_omitted (a writer may leave out any choice of the entries of member-less views)",
     "models coq/JsonDoc.v (denote_json = what a document describes; with_initial_view), coq/Json.v (load_json: sofa-first pass, "
     "byte-array pre-fetch, second pass, deferred fix-ups, initial-view rule, %VIEWS pass)",
     "stdlib json as text <-> abstract JSON (harness/jsonabs.py parse / emit; string escaping is json.dumps on single strings)",
-    "harness/jsonabs.present / nulls: the independent writer of presentation variants (knows only: entries, ids, which "
-    "entries are sofas)",
+    "harness/jsonabs.present / nulls and omit_views / respell_specials of this module: the independent writer of presentation "
+    "variants (knows only: entries, ids, which entries are sofas, which %VIEWS entries have no members, which members carry "
+    "the '#' prefix, which entries are Float/DoubleArrays)",
     "harness/scen.py canonical observation of the loaded CAS (identity-based traversal, public API)",
     "for fixtures the schema handed to the Coq reader is read from the loaded TypeSystem through the public API "
     "(all_features order); for generated documents it is computed from the scenario (scen.schema_of)",
@@ -53,7 +63,7 @@ TRUSTED = [
 ]
 ASSUMPTIONS = list(C02.ASSUMPTIONS) + [
     "documents mention every sofa once, name an existing sofa in every %SOFA and feature structure in every reference "
-    "(doc_ok_json); fixtures that break a value-kind rule (child_type_before_parent: a string in an Integer feature) are "
+    "(doc_ok_json, asked of the document with the %VIEWS entries of its member-less views written out: restore_views); fixtures that break a value-kind rule (child_type_before_parent: a string in an Integer feature) are "
     "compared without the doc_ok_json premise",
     "feature structures of a document that are not reachable from an index or a sofa cannot be observed in the loaded CAS",
     "a document that files two entries under one id (fixture casWithFloatingPointSpecialValues) is only presented in array form",
@@ -61,6 +71,86 @@ ASSUMPTIONS = list(C02.ASSUMPTIONS) + [
 
 FIX = os.path.join(os.environ.get("VERIF_REPO", "/repo"), "tests", "test_files", "json")
 ORDERS = ["keep", "reverse", "shuffle"]
+# %VIEWS entries of member-less views: kept / all left out / a random subset left out
+VIEW_KNOB = ["keep", "omit_empty", "omit_empty", "omit_some"]
+# spelling of the infinite Float / Double values ('#' members, elements of Float/DoubleArray): as in the document /
+# abbreviated ("Inf", "-Inf") / in full ("Infinity", "-Infinity") / either, drawn per occurrence
+SPECIAL_KNOB = ["keep", "abbr", "abbr", "full", "mixed"]
+
+
+def _t(name, sup, **feats):
+    d = {"%NAME": name, "%SUPER_TYPE": sup}
+    for f, rng in feats.items():
+        d[f] = {"%NAME": f, "%RANGE": rng}
+    return d
+
+
+def _sofa(i, num, name, text=None, mime=None):
+    d = {"%ID": i, "%TYPE": "uima.cas.Sofa", "sofaNum": num, "sofaID": name}
+    if mime is not None:
+        d["mimeType"] = mime
+    if text is not None:
+        d["sofaString"] = text
+    return d
+
+
+_TOK = {"test.Tok": _t("test.Tok", "uima.tcas.Annotation", score="uima.cas.Double", weight="uima.cas.Float")}
+_MEASURE = {"test.Measure": _t("test.Measure", "uima.cas.TOP", low="uima.cas.Double", high="uima.cas.Float",
+                               values="uima.cas.DoubleArray", fvalues="uima.cas.FloatArray", label="uima.cas.String")}
+# Documents written by hand (what a foreign writer may produce and neither cassis' writer nor the fixtures do): views
+# without members (listed in %VIEWS or left out, the initial view among them), sofa ids / sofaNums that are not 1..n, no
+# _InitialView sofa at all, the abbreviated spellings "Inf" / "-Inf" of the infinite Float / Double values.
+HAND = {
+    # all annotations live in the second view; the (text-bearing) initial view has no members
+    "initial_view_empty_listed": {
+        "%TYPES": _TOK,
+        "%FEATURE_STRUCTURES": [
+            _sofa(4, 2, "_InitialView", "Hello", "text/plain"), _sofa(9, 5, "other", "a\U0001F600bc wide", "text/plain"),
+            {"%ID": 11, "%TYPE": "test.Tok", "@sofa": 9, "begin": 0, "end": 3, "score": 1.5},
+            {"%ID": 12, "%TYPE": "test.Tok", "@sofa": 9, "begin": 3, "end": 5, "#score": "-Inf", "#weight": "Inf"}],
+        "%VIEWS": {"_InitialView": {"%SOFA": 4, "%MEMBERS": []}, "other": {"%SOFA": 9, "%MEMBERS": [11, 12]}}},
+    # the same layout with the entry of the empty initial view left out by the foreign writer itself
+    "initial_view_empty_omitted": {
+        "%TYPES": _TOK,
+        "%FEATURE_STRUCTURES": [
+            {"%ID": 3, "%TYPE": "test.Tok", "@sofa": 2, "begin": 0, "end": 5, "#score": "NaN"},
+            _sofa(2, 2, "other", "World wide", "text/plain"), _sofa(1, 1, "_InitialView", "Hello", "text/plain")],
+        "%VIEWS": {"other": {"%SOFA": 2, "%MEMBERS": [3]}}},
+    # three views, two of them without members (one of these without any sofa data)
+    "two_empty_views": {
+        "%TYPES": _TOK,
+        "%FEATURE_STRUCTURES": [
+            _sofa(1, 1, "_InitialView", "one two", "text/plain"), _sofa(7, 3, "b", "x", "text/html"), _sofa(5, 2, "c"),
+            {"%ID": 8, "%TYPE": "test.Tok", "@sofa": 1, "begin": 4, "end": 7, "weight": 0.25}],
+        "%VIEWS": {"c": {"%SOFA": 5, "%MEMBERS": []}, "_InitialView": {"%SOFA": 1, "%MEMBERS": [8]},
+                   "b": {"%SOFA": 7, "%MEMBERS": []}}},
+    # no _InitialView sofa: the view every CAS has takes the next id and the next sofaNum; the named view is empty too
+    "no_initial_view": {
+        "%TYPES": _MEASURE,
+        "%FEATURE_STRUCTURES": [
+            _sofa(5, 3, "named", "abc", "text/plain"), _sofa(6, 4, "filled"),
+            {"%ID": 9, "%TYPE": "test.Measure", "label": "Inf", "#low": "Infinity", "high": 2.5}],
+        "%VIEWS": {"named": {"%SOFA": 5, "%MEMBERS": []}, "filled": {"%SOFA": 6, "%MEMBERS": [9]}}},
+    # the infinite values in their abbreviated spelling, as feature values and as array elements
+    "specials_abbreviated": {
+        "%TYPES": _MEASURE,
+        "%FEATURE_STRUCTURES": [
+            _sofa(1, 1, "_InitialView"),
+            {"%ID": 2, "%TYPE": "test.Measure", "#low": "-Inf", "#high": "Inf", "@values": 3, "@fvalues": 4, "label": "-Inf"},
+            {"%ID": 3, "%TYPE": "uima.cas.DoubleArray", "%ELEMENTS": [1.5, "-Inf", "Inf", "NaN"]},
+            {"%ID": 4, "%TYPE": "uima.cas.FloatArray", "%ELEMENTS": ["Inf", 0.5, "-Infinity", "-Inf", "Infinity"]},
+            {"%ID": 5, "%TYPE": "uima.cas.StringArray", "%ELEMENTS": ["Infinity", "-Inf", "NaN"]}],
+        "%VIEWS": {"_InitialView": {"%SOFA": 1, "%MEMBERS": [2, 5]}}},
+    # one special value per spelling, negative values only abbreviated, positive ones only in full and vice versa
+    "specials_one_sided": {
+        "%TYPES": _MEASURE,
+        "%FEATURE_STRUCTURES": [
+            _sofa(1, 1, "_InitialView", "t"),
+            {"%ID": 2, "%TYPE": "test.Measure", "#low": "-Inf", "#high": "Infinity"},
+            {"%ID": 3, "%TYPE": "test.Measure", "#low": "Inf", "#high": "-Infinity", "@values": 4},
+            {"%ID": 4, "%TYPE": "uima.cas.DoubleArray", "%ELEMENTS": ["-Inf"]}],
+        "%VIEWS": {"_InitialView": {"%SOFA": 1, "%MEMBERS": [2, 3]}}},
+}
 
 
 def fixtures():
@@ -77,6 +167,9 @@ def gen_variant(r, force=None):
          "type_order": r.choice(ORDERS), "member_order": r.choice(ORDERS), "top_order": r.choice(ORDERS),
          "nulls": r.choice(["keep", "drop", "explicit", "explicit"]), "pretty": r.random() < 0.5, "ascii": r.random() < 0.5,
          "seed": r.randrange(1 << 30)}
+    # drawn after the older knobs so that those keep their values for a given seed
+    v["views"] = r.choice(VIEW_KNOB)
+    v["specials"] = r.choice(SPECIAL_KNOB)
     v.update(force or {})
     return v
 
@@ -89,8 +182,16 @@ def generate(rng, tier):
         for path in fx:
             r = random.Random(rng.randrange(1 << 30))
             yield {"src": {"kind": "fixture", "path": path},
-                   "variants": [gen_variant(r, {"fs_form": "dict", "fs_order": "sofa_last"} if rep == 0 else {"fs_form": "list"}),
+                   "variants": [gen_variant(r, {"fs_form": "dict", "fs_order": "sofa_last", "views": "omit_empty"} if rep == 0
+                                            else {"fs_form": "list", "specials": "abbr"}),
                                 gen_variant(r), gen_variant(r, {"nulls": "explicit"})]}
+    for rep in range(2 if tier == "quick" else 6):
+        for name in sorted(HAND):
+            r = random.Random(rng.randrange(1 << 30))
+            # the first round pins the two new knobs, the later rounds draw everything
+            forced = [{"views": "omit_empty", "specials": "keep"}, {"views": "keep", "specials": "abbr"},
+                      {"views": "omit_some", "specials": "full"}] if rep == 0 else [None, None, {"specials": "mixed"}]
+            yield {"src": {"kind": "hand", "name": name}, "variants": [gen_variant(r, f) for f in forced]}
     for k in range(n_own):
         sub = rng.randrange(1 << 30)
         sc = C02.make_scenario(sub, k)
@@ -135,6 +236,9 @@ def _source(cassis, sc):
                     return cassis.load_typesystem(f)
             return None
         return J.parse(text), text, mk, True, None
+    if src["kind"] == "hand":
+        text = json.dumps(HAND[src["name"]])
+        return J.parse(text), text, (lambda: None), True, None
     ts, cas, _views, _objs = C02.build(cassis, src)
     text = C02._to_json(cas, src["mode"], True, False, "str").decode("utf-8")
     ts_arg, merge = sc["load"]
@@ -144,8 +248,61 @@ def _source(cassis, sc):
     return J.parse(text), text, mk, merge, C02.schema2(cassis, src["tspec"], src["da_feats"])
 
 
+def _sofa_names(doc):
+    return {J._mget(m, "sofaID")[1] for _i, m in J.entries(doc) if J._is_sofa(m) and J._mget(m, "sofaID")}
+
+
+def omit_views(doc, how, rng):
+    """The %VIEWS entry of a view without members says nothing the Sofa entry does not say: leave such entries out (all of
+    them / a random subset).  Only views whose sofa the document lists; presentation only."""
+    if how == "keep":
+        return doc
+    names = _sofa_names(doc)
+
+    def drop(name, v):
+        mem = J.get(v, "%MEMBERS")
+        return name in names and mem == ("arr", []) and (how == "omit_empty" or rng.random() < 0.6)
+    return ("obj", [(k, ("obj", [(n, v) for n, v in val[1] if not drop(n, v)]) if k == J.VIEWS and val[0] == "obj" else val)
+                    for k, val in doc[1]])
+
+
+_ABBR = {"Infinity": "Inf", "-Infinity": "-Inf"}
+_FULL = {b: a for a, b in _ABBR.items()}
+
+
+def respell_specials(doc, how, rng):
+    """JSON-CAS spells an infinite Float / Double value "Infinity" / "-Infinity" or, abbreviated, "Inf" / "-Inf" -- in the
+    members that carry the '#' prefix and in the %ELEMENTS of a FloatArray / DoubleArray (strings elsewhere are strings)."""
+    if how == "keep":
+        return doc
+    fs = J.get(doc, J.FS)
+    if fs is None:
+        return doc
+
+    def sp(x):
+        if x[0] != "str" or (x[1] not in _ABBR and x[1] not in _FULL):
+            return x
+        table = {"abbr": _ABBR, "full": _FULL, "mixed": rng.choice([_ABBR, _FULL])}[how]
+        return ("str", table.get(x[1], x[1]))
+
+    def one(m):
+        t = J._mget(m, "%TYPE")
+        if t in (("str", "uima.cas.FloatArray"), ("str", "uima.cas.DoubleArray")):
+            return [(k, ("arr", [sp(e) for e in x[1]]) if k == "%ELEMENTS" and x[0] == "arr" else x) for k, x in m]
+        return [(k, sp(x) if k.startswith("#") else x) for k, x in m]
+
+    if fs[0] == "arr":
+        new = ("arr", [("obj", one(e[1])) if e[0] == "obj" else e for e in fs[1]])
+    else:
+        new = ("obj", [(k, ("obj", one(e[1])) if e[0] == "obj" else e) for k, e in fs[1]])
+    return ("obj", [(k, new if k == J.FS else v) for k, v in doc[1]])
+
+
 def make_variant(doc, v, schema):
     d = J.nulls(doc, v["nulls"], schema)
+    rk = random.Random(v["seed"] ^ 0x0E17)      # its own stream: the older knobs keep their draws
+    d = respell_specials(d, v.get("specials", "keep"), rk)
+    d = omit_views(d, v.get("views", "keep"), rk)
     ids = [i for i, _m in J.entries(doc)]
     # a document that uses an id twice (fixture casWithFloatingPointSpecialValues: sofa 1 and structure 1) has no id-keyed form
     form = v["fs_form"] if len(set(ids)) == len(ids) else "list"
@@ -155,7 +312,10 @@ def make_variant(doc, v, schema):
 
 def run_impl(cassis, sc):
     doc, text, mk_ts, merge, schema = _source(cassis, sc)
-    loaded = cassis.load_cas_from_json(text, typesystem=mk_ts(), merge_typesystem=merge)
+    try:
+        loaded = cassis.load_cas_from_json(text, typesystem=mk_ts(), merge_typesystem=merge)
+    except Exception as e:  # noqa -- every source document is loadable; the oracle reports it
+        return {"doc": doc, "error": f"{type(e).__name__}: {e}", "variants": []}
     # identity: one Python object per id (a byte array fetched ahead for a sofa must not be built a second time: d94ad6a)
     twice = sorted(i for i, n in C02.objects_per_id(loaded).items() if n > 1 and i is not None)
     obs = {"doc": doc, "twice": twice, "canon": None if twice else scen.canon(loaded, "json"), "variants": []}
@@ -201,6 +361,8 @@ def _reachable_only(den, loaded):
 
 
 def oracle(cassis, sc, obs):
+    if "error" in obs:
+        return f"the document could not be loaded: {obs['error']}"
     if obs.get("twice"):
         return (f"sharing lost: the loaded CAS holds several objects under one id {obs['twice']} (an entry the document lists "
                 f"once -- a sofa byte array also held by another sofa, a view or a feature -- was built twice)")
@@ -215,11 +377,12 @@ def oracle(cassis, sc, obs):
         den0 = _with_initial(J.py_denote(schema, obs["doc"]))
     except Exception as e:  # noqa
         return f"the document cannot be read by the independent reader ({type(e).__name__}: {e})"
-    d = J.canon_diff(den0, want) if sc["src"]["kind"] == "own" else J.canon_diff(_reachable_only(den0, want), want)
+    d = J.canon_diff(den0, want) if sc["src"]["kind"] in ("own", "hand") else J.canon_diff(_reachable_only(den0, want), want)
     if d:
         return "loaded CAS differs from what the document describes: " + d
     for v, rec in zip(sc["variants"], obs["variants"]):
-        tag = {k: v[k] for k in ("fs_form", "fs_order", "type_order", "member_order", "top_order", "nulls", "pretty", "ascii")}
+        tag = {k: v.get(k) for k in ("fs_form", "fs_order", "type_order", "member_order", "top_order", "nulls", "views",
+                                     "specials", "pretty", "ascii")}
         if "error" in rec:
             return f"presentation variant {tag} could not be loaded: {rec['error']}"
         d = J.canon_diff(want, rec["canon"])
@@ -243,6 +406,10 @@ def render(sc, obs):
     if src["kind"] == "own":
         names = [t["name"] for t in src["tspec"]] + ([C02.DA] if src["da_feats"] else [])
         strict, embedded = True, sc["load"][0] == "absent"
+    elif src["kind"] == "hand":
+        bt = scen.builtin_table(cassis)
+        names = [n for n in schema if n not in bt or n == C02.DA]
+        strict, embedded = True, True
     else:
         bt = scen.builtin_table(cassis)
         names = [n for n in schema if n not in bt or n == C02.DA]
@@ -274,8 +441,9 @@ def shrink_candidates(sc):
     # one presentation knob back to neutral at a time
     for i, v in enumerate(sc["variants"]):
         for k, neutral in (("member_order", "keep"), ("type_order", "keep"), ("top_order", "keep"), ("nulls", "keep"),
-                           ("fs_order", "keep"), ("fs_form", "list"), ("pretty", False), ("ascii", False)):
-            if v[k] != neutral:
+                           ("fs_order", "keep"), ("fs_form", "list"), ("pretty", False), ("ascii", False),
+                           ("views", "keep"), ("specials", "keep")):
+            if v.get(k, neutral) != neutral:
                 c = copy.deepcopy(sc)
                 c["variants"][i][k] = neutral
                 yield c
